@@ -7,14 +7,17 @@ from vlib import Broken
 # what the driver may find on real code, by kind -> all are C09 violations
 VIOLATIONS = {"honest-header-rejected", "honest-block-not-appended", "derived-field-differs", "deviation-accepted",
               "total-entropy-differs", "entropy-not-increasing", "order-differs-after-restart",
-              "entropy-differs-after-restart", "verify-header-panicked", "log-entropy-differs"}
+              "entropy-differs-after-restart", "verify-header-panicked", "log-entropy-differs", "order-unstable"}
 # driver could not do its job (not a verdict)
 DRIVER = {"driver-step-failed", "driver-limit", "context-parent-missing"}
 
 ASSUMPTIONS = [
     "blake3 proof of work (the engine of the local network configuration); topology 1 region x 1 zone at expansion 0 (the deployed one)",
     "blocks are assembled by the node's own worker; their timestamps are set by the driver (parent time + {0..2, 4..6, 99..1000} s) to reach "
-    "both sides of the retarget and its clamp",
+    "both sides of the retarget and its clamp; a 'climb' run first raises the difficulty ~25 adjustment units above the configured floor "
+    "(the harness network's MinDifficulty equals its genesis difficulty) so that clamped and unclamped decreases are not masked by the floor",
+    "a block of the node's own that verifyHeader accepted but Slice.Append refused for a reason outside the header rules (termini / pending body: "
+    "the asynchronous worker racing the synchronous driver, seen once under heavy load) ends that run and is reported in harness_notes, not as a verdict",
     "numeric field rules are judged by a literal math/big transcription in the driver (number, time window, difficulty retarget with clamp and floor, "
     "gas limit, state limit, base fee, prime terminus hash/number, expansion number, parent entropy / delta / uncled delta per context, total entropy, "
     "order, header hash, block hash); efficiency score, threshold count, etx-eligible slices, miner difficulty and the post-fork share-difficulty "
@@ -90,7 +93,7 @@ def judge(ctx, info, tag, seed, extra):
         raise Broken("driver could not complete %s: %s" % (tag, json.dumps(driver_problems[:3])[:1500]))
 
 
-def validate(ctx, tag, tr):
+def validate(ctx, tag, tr, extra=None):
     t = vlib.tlc(ctx, "HeaderTrace", "HeaderTrace.cfg", workers=1, timeout=3000, tag="HeaderTrace-" + tag,
                  files={"hdrtrace.ndjson": Path(tr).read_text()})
     if t.ok:
@@ -102,7 +105,7 @@ def validate(ctx, tag, tr):
         mm = re.match(r'<<\d+, "([\w-]+)"', detail)
         if t.violated == "ObservationsConform" and mm:
             what = mm.group(1)
-        vlib.report(ctx, {"kind": "trace-" + t.violated, "what": what}, {"run": tag, "invariant": t.violated, "detail": detail, "trace": str(tr)})
+        vlib.report(ctx, {"kind": "trace-" + t.violated, "what": what}, dict(extra or {}, run=tag, invariant=t.violated, detail=detail, trace=str(tr)))
         return False
     raise Broken("HeaderTrace did not accept the trace of %s:\n%s" % (tag, (t.error or t.out)[-2500:]))
 
@@ -129,8 +132,9 @@ def run(ctx):
     cov.update(states=states, transitions=trans, tlc_behaviours=len(e.printed), distinct_scripts=total_shapes, scripts_replayed=len(shapes))
     sf = ctx.work / "shapes.ndjson"
     vlib.write_ndjson(sf, shapes)
-    validated, samples, totals = 0, [], {}
-    plans = [("shapes", "base", ["-shapes", sf])]
+    validated, samples, totals, harness_notes = 0, [], {}, []
+    # the climb scenario: difficulty raised well above the configured floor, then block times around the retarget clamp
+    plans = [("shapes", "base", ["-shapes", sf]), ("climb", "climb", ["-climb", 25, "-steps", 4 if quick else 20])]
     nrand = 1 if quick else 3
     steps = 22 if quick else 120
     for i in range(nrand):
@@ -141,18 +145,24 @@ def run(ctx):
         tr = ctx.work / ("hdrtrace-%s.ndjson" % tag)
         info = run_driver(ctx, drv, tag, ["-seed", seed, "-profile", prof, "-out", tr, "-append-every", 4 if quick else 3,
                                           "-cold-every", 10 if quick else 25] + extra, timeout=3000)
-        judge(ctx, info, tag, seed, {"profile": prof})
+        judge(ctx, info, tag, seed, {"profile": prof, "args": [str(a) for a in extra if a != sf]})
+        for nt in info.get("notes") or []:
+            vlib.log("note (%s): the node did not append its own block for a reason outside the header rules: %s" % (tag, nt))
+            harness_notes.append("%s: %s" % (tag, nt))
         for k, v in info["stats"].items():
             totals[k] = totals.get(k, 0) + v
-        if validate(ctx, tag, tr):
+        if validate(ctx, tag, tr, {"profile": prof, "seed": seed, "args": [str(a) for a in extra if a != sf]}):
             validated += 1
         if len(samples) < 4:
             rows = [r for r in vlib.read_ndjson(tr) if r["op"] == "extend"]
             samples += rows[3:5] if tag == "shapes" else rows[-1:]
-    if totals.get("deviations", 0) < 300 or totals.get("cold_checks", 0) < 3 or totals.get("retarget_clamped", 0) == 0 or totals.get("post_fork_blocks", 0) == 0:
+    if len(harness_notes) > 2 and not ctx.violations:
+        raise Broken("the harness network refused its own blocks too often: %s" % harness_notes[:3])
+    if totals.get("deviations", 0) < 300 or totals.get("cold_checks", 0) < 3 or totals.get("retarget_clamped_above_floor", 0) == 0 or \
+            totals.get("retarget_down_above_floor", 0) == 0 or totals.get("post_fork_blocks", 0) == 0 or totals.get("blocks", 0) < 60:
         if not ctx.violations:
             raise Broken("driver coverage too thin: %s" % json.dumps(totals))
-    cov.update(traces_validated_against_impl=validated, impl=totals, samples=samples + [{"script_from_TLC": shapes[0]}],
+    cov.update(traces_validated_against_impl=validated, impl=totals, harness_notes=harness_notes, samples=samples + [{"script_from_TLC": shapes[0]}],
                rule="TLC: every block tree of the bounded model satisfies ChildEqualsDerived / DeviationRejected / EntropyStrictlyIncreases / OrderStable ...; "
                     "TLC-generated scripts (extend with order and time class, CalcOrder warm/cold, restart) realised on fresh real networks; seeded random "
                     "fork-heavy chains on three parameter profiles (deployed constants; gas/state-limit ramp; chain crossing the KawPow fork); per real header: "
@@ -168,14 +178,13 @@ def replay(ctx, path):
     drv = vlib.go_build("hdrdrv")
     if "mismatch" in rp:
         sf = ctx.work / "one.ndjson"
-        vlib.write_ndjson(sf, [[{k: v for k, v in st.items()} for st in rp["mismatch"]["behaviour"]]])
+        vlib.write_ndjson(sf, [rp["mismatch"]["behaviour"]])
         extra = ["-shapes", sf]
-    elif rp.get("run", "").startswith("shapes"):
-        raise Broken("replay of a shapes run needs the original TLC output: rerun `tools/check C09` with VERIF_SEED=%s" % j["seed"])
     else:
-        extra = ["-steps", 22 if j["tier"] == "quick" else 120]
+        # (a problem met while realising TLC scripts is a property of single headers: any chain of that profile shows it)
+        extra = rp.get("args") or ["-steps", 22 if j["tier"] == "quick" else 120]
     tr = ctx.work / "replay.ndjson"
     info = run_driver(ctx, drv, "replay", ["-seed", rp.get("seed", 1), "-profile", rp.get("profile", "base"), "-out", tr] + extra, timeout=3000)
-    judge(ctx, info, "replay", rp.get("seed", 1), {"profile": rp.get("profile", "base")})
-    validate(ctx, "replay", tr)
+    judge(ctx, info, "replay", rp.get("seed", 1), {"profile": rp.get("profile", "base"), "args": extra})
+    validate(ctx, "replay", tr, {"profile": rp.get("profile", "base"), "seed": rp.get("seed", 1), "args": [str(a) for a in extra]})
     print(json.dumps(info["stats"]))
